@@ -6,6 +6,7 @@
 -/
 import QV.Proofs.Writer
 import QV.Proofs.Compress
+import QV.Proofs.CompressC
 
 namespace QV.Writer
 open QV QV.Wire
@@ -140,6 +141,81 @@ theorem labelStartsFrom_ge (c : Nat) (ls : List Label) : ∀ g ∈ labelStartsFr
     · have := ih _ g hg
       simp; omega
 
+/-- the chunk-disciplined version of `literal_chain`: labels stored literally at `c`, inside a chunk
+    that starts at `a ≤ c`, followed by something that `Hop`s to a chunk-disciplined stored name —
+    in the same chunk, or below the start of the chunk -/
+theorem literal_chainC {G : Nat → Prop} {oct : Bytes} {cur a : Nat} {tail : List Label} {pe cs' : Nat} :
+    ∀ (ls : List Label) (c : Nat), a ≤ c → BytesAt oct c (ls.flatMap WName.encLabel) → LabelsWF ls →
+      (∀ g ∈ labelStartsFrom c ls, G g) → Hop oct cur (c + encLen ls) pe →
+      ((pe = c + encLen ls ∧ cs' = a) ∨ (pe < a ∧ cs' = pe)) → NameAtC G oct cur cs' pe tail →
+      ls ≠ [] → NameAtC G oct cur a c (ls ++ tail) := by
+  intro ls
+  induction ls with
+  | nil => intro c _ _ _ _ _ _ _ hne; exact absurd rfl hne
+  | cons l ls ih =>
+    intro c hac hb hwf hg hop hch hn _
+    have hl := hwf l List.mem_cons_self
+    simp only [List.flatMap_cons, WName.encLabel, List.cons_append] at hb
+    obtain ⟨hb0, hb1⟩ := bytesAt_cons hb
+    obtain ⟨hb2, hb3⟩ := bytesAt_append hb1
+    have hd : (oct.extract (c + 1) (c + 1 + l.length)).toList = l := bytesAt_extract hb2
+    have hgc : G c := hg c (by simp [labelStartsFrom])
+    have hop' : Hop oct cur (c + 1 + l.length + encLen ls) pe := by
+      rw [encLen_cons] at hop
+      rw [show c + 1 + l.length + encLen ls = c + (1 + l.length + encLen ls) by omega]; exact hop
+    cases hls : ls with
+    | nil =>
+      subst hls
+      simp only [encLen_nil, Nat.add_zero] at hop'
+      have hch' : (pe = c + 1 + l.length ∧ cs' = a) ∨ (pe < a ∧ cs' = pe) := by
+        rcases hch with ⟨e1, e2⟩ | h2
+        · left; rw [encLen_cons, encLen_nil] at e1; exact ⟨by omega, e2⟩
+        · right; exact h2
+      exact .label hac hgc hl.1 hl.2 hb0 hd hop' hch' hn
+    | cons l2 ls2 =>
+      have hch' : (pe = c + 1 + l.length + encLen ls ∧ cs' = a) ∨ (pe < a ∧ cs' = pe) := by
+        rcases hch with ⟨e1, e2⟩ | h2
+        · left; rw [encLen_cons] at e1; exact ⟨by omega, e2⟩
+        · right; exact h2
+      have hrest := ih (c + 1 + l.length) (by omega) hb3 (fun x hx => hwf x (List.mem_cons_of_mem _ hx))
+        (fun g hg' => hg g (by simp [labelStartsFrom]; right; rw [show c + l.length + 1 = c + 1 + l.length by omega]; exact hg'))
+        hop' hch' hn (by rw [hls]; simp)
+      obtain ⟨_, hlt, b, hbq, hnp⟩ := nameAt_start (nameAtC_forget hrest)
+      rw [← hls]
+      exact .label hac hgc hl.1 hl.2 hb0 hd (.here hlt hbq hnp) (Or.inl ⟨rfl, rfl⟩) hrest
+
+/-- every label start of the literal part begins a chunk-disciplined stored name that is a suffix
+    of the whole -/
+theorem literal_allC {G : Nat → Prop} {oct : Bytes} {cur a : Nat} {tail : List Label} {pe cs' : Nat} :
+    ∀ (ls : List Label) (c : Nat), a ≤ c → BytesAt oct c (ls.flatMap WName.encLabel) → LabelsWF ls →
+      (∀ g ∈ labelStartsFrom c ls, G g) → Hop oct cur (c + encLen ls) pe →
+      ((pe = c + encLen ls ∧ cs' = a) ∨ (pe < a ∧ cs' = pe)) → NameAtC G oct cur cs' pe tail →
+      ∀ g ∈ labelStartsFrom c ls, ∃ ls', NameAtC G oct cur g g ls' ∧ encLen ls' ≤ encLen ls + encLen tail := by
+  intro ls
+  induction ls with
+  | nil => intro c _ _ _ _ _ _ _ g hg; simp [labelStartsFrom] at hg
+  | cons l ls ih =>
+    intro c hac hb hwf hg hop hch hn g hgm
+    simp only [labelStartsFrom, List.mem_cons] at hgm
+    rcases hgm with rfl | hgm
+    · have h2 := literal_chainC (l :: ls) g hac hb hwf hg hop hch hn (by simp)
+      exact ⟨_, nameAtC_mono h2 hac (Nat.le_refl _), by rw [encLen_append]; exact Nat.le_refl _⟩
+    · simp only [List.flatMap_cons, WName.encLabel, List.cons_append] at hb
+      obtain ⟨_, hb1⟩ := bytesAt_cons hb
+      obtain ⟨_, hb3⟩ := bytesAt_append hb1
+      have hop' : Hop oct cur (c + 1 + l.length + encLen ls) pe := by
+        rw [encLen_cons] at hop
+        rw [show c + 1 + l.length + encLen ls = c + (1 + l.length + encLen ls) by omega]; exact hop
+      have hch' : (pe = c + 1 + l.length + encLen ls ∧ cs' = a) ∨ (pe < a ∧ cs' = pe) := by
+        rcases hch with ⟨e1, e2⟩ | h2
+        · left; rw [encLen_cons] at e1; exact ⟨by omega, e2⟩
+        · right; exact h2
+      rw [show c + l.length + 1 = c + 1 + l.length by omega] at hgm
+      obtain ⟨ls', h1, h2⟩ := ih (c + 1 + l.length) (by omega) hb3 (fun x hx => hwf x (List.mem_cons_of_mem _ hx))
+        (fun g' hg' => hg g' (by simp [labelStartsFrom]; right; rw [show c + l.length + 1 = c + 1 + l.length by omega]; exact hg'))
+        hop' hch' hn g hgm
+      exact ⟨ls', h1, by rw [encLen_cons]; omega⟩
+
 /-! ### the anchor invariant -/
 
 /-- the recorded label starts of a state -/
@@ -158,6 +234,10 @@ def Den (s : State) (p : Prior) (n : WName) : Prop :=
 def AnchorOK (s : State) (a : Option Prior) : Prop :=
   ∀ p, a = some p → 0 < p.ptr ∧ p.ptr ≤ Gen.POINTER_MAX ∧ PriorOK (GL s) s.octets s.cursor p
 
+/-- a chunk-disciplined name of at most 255 octets is stored at the recorded label start `g` -/
+def CStored (s : State) (g : Nat) : Prop :=
+  ∃ ls, NameAtC (GL s) s.octets s.cursor g g ls ∧ encLen ls + 1 ≤ 255
+
 /-- the working invariant of the name-writing routines -/
 structure WInv (s : State) : Prop where
   c12 : 12 ≤ s.cursor
@@ -168,6 +248,9 @@ structure WInv (s : State) : Prop where
   qn : AnchorOK s s.qname
   ow : AnchorOK s s.mostRecentOwner
   rd : AnchorOK s s.mostRecentNameInRdata
+  /-- every recorded label start begins a name that the RFC 1035 §4.1.4 decoder can read: pointers
+      go below the start of the chunk they end, and the expanded name is at most 255 octets -/
+  clabs : ∀ g ∈ s.gLabels, CStored s g
 
 theorem den_priorOK {s : State} {p : Prior} {n : WName} (h : Den s p n) :
     PriorOK (GL s) s.octets s.cursor p := by
@@ -180,6 +263,11 @@ theorem storedAt_ext {s s' : State} (e : Ext s s') {p : Nat} {ls : List Label}
     (h : StoredAt s p ls) : StoredAt s' p ls :=
   nameAt_frame (lo := 0) h (fun x hx => e.glab x hx) (fun _ _ => Nat.zero_le _)
     (fun i _ hi => e.pre i hi) e.cur
+
+theorem cstored_ext {s s' : State} (e : Ext s s') {g : Nat} (h : CStored s g) : CStored s' g := by
+  obtain ⟨ls, h1, h2⟩ := h
+  exact ⟨ls, nameAtC_frame (lo := 0) h1 (fun x hx => e.glab x hx) (fun _ _ => Nat.zero_le _)
+    (fun i _ hi => e.pre i hi) e.cur, h2⟩
 
 theorem den_ext {s s' : State} (e : Ext s s') {p : Prior} {n : WName} (h : Den s p n) : Den s' p n := by
   obtain ⟨h1, h2, h3, ls, h4, h5⟩ := h
@@ -198,7 +286,7 @@ theorem winv_ext {s s' : State} (h : WInv s) (e : Ext s s') (hg : s'.gLabels = s
     (hq : s'.qname = s.qname) (ho : s'.mostRecentOwner = s.mostRecentOwner)
     (hr : s'.mostRecentNameInRdata = s.mostRecentNameInRdata) : WInv s' := by
   refine ⟨by have := e.cur; have := h.c12; omega, by rw [e.available]; exact e.avail h.cur_av,
-    by rw [e.available, e.size]; exact h.av_size, by rw [hg]; exact h.g12, ?_, ?_, ?_, ?_⟩
+    by rw [e.available, e.size]; exact h.av_size, by rw [hg]; exact h.g12, ?_, ?_, ?_, ?_, ?_⟩
   · intro g hgm
     rw [hg] at hgm
     obtain ⟨ls, hl⟩ := h.labs g hgm
@@ -206,6 +294,9 @@ theorem winv_ext {s s' : State} (h : WInv s) (e : Ext s s') (hg : s'.gLabels = s
   · rw [hq]; exact anchorOK_ext e h.qn
   · rw [ho]; exact anchorOK_ext e h.ow
   · rw [hr]; exact anchorOK_ext e h.rd
+  · intro g hgm
+    rw [hg] at hgm
+    exact cstored_ext e (h.clabs g hgm)
 
 /-- **the pointer log is sound (C13)**: every compression pointer emitted so far points strictly
     backwards, lies entirely below the cursor, has a target in pointer range that is a recorded
@@ -260,7 +351,7 @@ theorem winv_push {s : State} (h : WInv s) (d : List UInt8) (hd : d.length ≤ s
   have e := ext_push s d (by have := h.cur_av; omega)
   have w := winv_ext h e rfl rfl rfl rfl
   exact ⟨w.c12, by have := h.cur_av; show s.cursor + d.length ≤ s.available; omega, w.av_size, w.g12,
-    w.labs, w.qn, w.ow, w.rd⟩
+    w.labs, w.qn, w.ow, w.rd, w.clabs⟩
 
 theorem labelsMatch_refl (mode : CMode) (ls : List Label) : labelsMatch mode ls ls = true := by
   induction ls with
@@ -306,6 +397,27 @@ theorem labelsMatch_append {mode : CMode} {a b c d : List Label} (h1 : labelsMat
       simp only [labelsMatch, Bool.and_eq_true, List.cons_append] at h1 ⊢
       exact ⟨h1.1, ih h1.2⟩
 
+theorem labelMatch_length {mode : CMode} {a b : Label} (h : labelMatch mode a b = true) :
+    a.length = b.length := by
+  unfold labelMatch at h
+  split at h
+  · simp at h; rw [h]
+  · unfold WName.labelEqIgnoreCase at h
+    have := congrArg List.length (eq_of_beq h)
+    simpa using this
+
+theorem labelsMatch_encLen {mode : CMode} {a b : List Label} (h : labelsMatch mode a b = true) :
+    encLen a = encLen b := by
+  induction a generalizing b with
+  | nil => cases b with
+    | nil => rfl
+    | cons _ _ => simp [labelsMatch] at h
+  | cons x xs ih => cases b with
+    | nil => simp [labelsMatch] at h
+    | cons y ys =>
+      simp only [labelsMatch, Bool.and_eq_true] at h
+      rw [encLen_cons, encLen_cons, ih h.2, labelMatch_length h.1]
+
 theorem wf_labels {n : WName} (h : n.WF) : LabelsWF n.labels := by
   intro l hl
   have := h.1 l hl
@@ -317,13 +429,41 @@ theorem wire_length (n : WName) : n.wire.length = encLen n.labels + 1 := by
 
 /-! ### writing a name without compression -/
 
+/-- from position `a` (where a name was just written: a label, or a bare pointer) one reads — with
+    the chunk discipline of the RFC 1035 §4.1.4 decoder started at `a` — the labels `ls`; the
+    expanded name has at most 255 octets -/
+def ReadsAt (s : State) (a : Nat) (ls : List Label) : Prop :=
+  ∃ q cs', Hop s.octets s.cursor a q ∧ ((q = a ∧ cs' = a) ∨ (q < a ∧ cs' = q)) ∧
+    NameAtC (GL s) s.octets s.cursor cs' q ls ∧ encLen ls + 1 ≤ 255
+
+/-- the contiguous octets a name occupies at `a`: literal labels `pre`, then the root label
+    (`k = |pre| + 1`) or the first octet of a pointer (`k = |pre| + 2`) -/
+def ChunkAt (oct : Bytes) (a k : Nat) : Prop :=
+  ∃ pre b, LabelsWF pre ∧ BytesAt oct a (pre.flatMap WName.encLabel ++ [b]) ∧
+    ((b = 0 ∧ k = encLen pre + 1) ∨ (isPtr b = true ∧ k = encLen pre + 2))
+
+/-- how names are compared in a mode: octet for octet in `CasePreserving`, ignoring ASCII case
+    otherwise -/
+def effMode (m : CMode) : CMode := if m = .casePreserving then .casePreserving else .standard
+
+theorem labelsMatch_eff {m : CMode} {a b : List Label} (h : labelsMatch m a b = true) :
+    labelsMatch (effMode m) a b = true := by
+  unfold effMode
+  split
+  · rename_i hm; rw [hm] at h; exact h
+  · exact labelsMatch_std h
+
 /-- what a name-writing routine guarantees when it starts from a valid state `s` and is given the
     name `n`: it does not panic; on success the state is valid again, the anchors it does not
     return are untouched, and the anchor it returns denotes `n` -/
 structure NameSpec (s : State) (n : WName) (r : Out WriterErr (Option Prior) × State) : Prop where
   nopanic : r.1 ≠ .panic
+  /-- … and what was written at the old cursor reads back — for the RFC decoder — as labels that
+      match the name given (octet for octet in `CasePreserving` mode, up to ASCII case otherwise) -/
   ok : ∀ p, r.1 = .ok p → WInv r.2 ∧ (∀ q, p = some q → Den r.2 q n) ∧ r.2.qname = s.qname ∧
-    r.2.mostRecentOwner = s.mostRecentOwner ∧ r.2.mostRecentNameInRdata = s.mostRecentNameInRdata
+    r.2.mostRecentOwner = s.mostRecentOwner ∧ r.2.mostRecentNameInRdata = s.mostRecentNameInRdata ∧
+    (∃ ls, ReadsAt r.2 s.cursor ls ∧ labelsMatch (effMode s.mode) n.labels ls = true) ∧
+    ChunkAt r.2.octets s.cursor (r.2.cursor - s.cursor)
   /-- and the pointer log stays sound -/
   log : ∀ p, r.1 = .ok p → PtrLogOK s → PtrLogOK r.2
 
@@ -400,7 +540,7 @@ theorem writeUncompressedName_spec (n : WName) (s : State) (h : WInv s) (hn : n.
       simpa [StoredAt, hl] using h2
   have hw : WInv s' := by
     refine ⟨by rw [hcur]; omega, by rw [hcur, e.available]; omega, by rw [e.available, e.size]; exact hsz,
-      ?_, ?_, ?_, ?_, ?_⟩
+      ?_, ?_, ?_, ?_, ?_, ?_⟩
     · intro g hg
       rw [hgl] at hg
       simp only [List.cons_append, List.nil_append, List.mem_cons, List.mem_append, List.mem_reverse] at hg
@@ -419,7 +559,34 @@ theorem writeUncompressedName_spec (n : WName) (s : State) (h : WInv s) (hn : n.
     · rw [show s'.qname = s.qname by rw [← hs']; rfl]; exact anchorOK_ext e h.qn
     · rw [show s'.mostRecentOwner = s.mostRecentOwner by rw [← hs']; rfl]; exact anchorOK_ext e h.ow
     · rw [show s'.mostRecentNameInRdata = s.mostRecentNameInRdata by rw [← hs']; rfl]; exact anchorOK_ext e h.rd
-  refine ⟨hw, ?_, by rw [← hs']; rfl, by rw [← hs']; rfl, by rw [← hs']; rfl⟩
+    · intro g hg
+      rw [hgl] at hg
+      simp only [List.cons_append, List.nil_append, List.mem_cons, List.mem_append, List.mem_reverse] at hg
+      have hrootC : NameAtC (GL s') s'.octets s'.cursor s.cursor (s.cursor + encLen n.labels) [] :=
+        .root (by omega) hGend (by rw [hcur]; omega) h0
+      have h255 : n.wire.length ≤ 255 := hn.2
+      rcases hg with rfl | hg | hg
+      · exact ⟨[], .root (Nat.le_refl _) hGend (by rw [hcur]; omega) h0, by simp⟩
+      · obtain ⟨ls', h1, h2⟩ := literal_allC (a := s.cursor) (cs' := s.cursor) n.labels s.cursor (Nat.le_refl _)
+          hb'.1 hwf hGst hhop (Or.inl ⟨rfl, rfl⟩) hrootC g hg
+        exact ⟨ls', h1, by rw [encLen_nil] at h2; omega⟩
+      · exact cstored_ext e (h.clabs g hg)
+  have hreadsU : ReadsAt s' s.cursor n.labels := by
+    have hrootC : NameAtC (GL s') s'.octets s'.cursor s.cursor (s.cursor + encLen n.labels) [] :=
+      .root (by omega) hGend (by rw [hcur]; omega) h0
+    have h255 : n.wire.length ≤ 255 := hn.2
+    have hC : NameAtC (GL s') s'.octets s'.cursor s.cursor s.cursor n.labels := by
+      cases hl : n.labels with
+      | nil => rw [hl] at hrootC; simpa using hrootC
+      | cons l ls =>
+        have := literal_chainC (a := s.cursor) (cs' := s.cursor) n.labels s.cursor (Nat.le_refl _) hb'.1 hwf hGst
+          hhop (Or.inl ⟨rfl, rfl⟩) hrootC (by rw [hl]; simp)
+        simpa [hl] using this
+    obtain ⟨_, hlt, b, hb0, hnp⟩ := nameAt_start (nameAtC_forget hC)
+    exact ⟨s.cursor, s.cursor, .here hlt hb0 hnp, Or.inl ⟨rfl, rfl⟩, hC, by omega⟩
+  refine ⟨hw, ?_, by rw [← hs']; rfl, by rw [← hs']; rfl, by rw [← hs']; rfl,
+    ⟨n.labels, hreadsU, labelsMatch_refl _ _⟩,
+    ⟨n.labels, 0, hwf, hb, Or.inl ⟨rfl, by show s'.cursor - s.cursor = _; rw [hcur, hwl]; omega⟩⟩⟩
   intro q hq
   rw [← hp] at hq
   show Den s' q n
@@ -466,9 +633,11 @@ theorem literal_ptr_state {s s3 : State} (h : WInv s) (e : Ext s s3) {pre tail :
     (hcur : s3.cursor = s.cursor + encLen pre + 2)
     (hgl : s3.gLabels = (labelStartsFrom s.cursor pre).reverse ++ s.gLabels)
     (hq : s3.qname = s.qname) (ho : s3.mostRecentOwner = s.mostRecentOwner)
-    (hr : s3.mostRecentNameInRdata = s.mostRecentNameInRdata) :
-    WInv s3 ∧ ∃ q, Hop s3.octets s3.cursor s.cursor q ∧ StoredAt s3 q (pre ++ tail) ∧
-      (pre ≠ [] → q = s.cursor) := by
+    (hr : s3.mostRecentNameInRdata = s.mostRecentNameInRdata)
+    (hbound : pre ≠ [] → encLen pre + encLen tail + 1 ≤ 255) :
+    WInv s3 ∧ (∃ q, Hop s3.octets s3.cursor s.cursor q ∧ StoredAt s3 q (pre ++ tail) ∧
+      (pre ≠ [] → q = s.cursor)) ∧ ReadsAt s3 s.cursor (pre ++ tail) ∧
+      ChunkAt s3.octets s.cursor (s3.cursor - s.cursor) := by
   have htail' : StoredAt s3 pp tail := storedAt_ext e htail
   obtain ⟨_, hpplt, b3, hb3, hnp3⟩ := nameAt_start htail
   have hb3' : s3.octets[pp]? = some b3 := by rw [e.pre pp hpplt]; exact hb3
@@ -486,10 +655,43 @@ theorem literal_ptr_state {s s3 : State} (h : WInv s) (e : Ext s s3) {pre tail :
   have hGst : ∀ g ∈ labelStartsFrom s.cursor pre, GL s3 g := by
     intro g hg; unfold GL; rw [hgl]; simp; left; exact hg
   obtain ⟨q, hq1, hq2, hq3⟩ := literal_chain pre s.cursor hbl hwf hGst hhop htail'
-  refine ⟨?_, q, hq1, hq2, hq3⟩
+  -- the chunk-disciplined reading of the target, in the new state
+  obtain ⟨lsT, hcT, hbT⟩ := h.clabs pp (nameAt_start htail).1
+  have hT := nameAtC_unique hcT htail
+  subst hT
+  have hc3 : NameAtC (GL s3) s3.octets s3.cursor pp pp lsT :=
+    nameAtC_frame (lo := 0) hcT (fun x hx => e.glab x hx) (fun _ _ => Nat.zero_le _)
+      (fun i _ hi => e.pre i hi) e.cur
+  have hreads : ReadsAt s3 s.cursor (pre ++ lsT) := by
+    cases hpre : pre with
+    | nil =>
+      subst hpre
+      simp only [encLen_nil, Nat.add_zero] at hhop
+      exact ⟨pp, pp, hhop, Or.inr ⟨hpplt, rfl⟩, by simpa using hc3, by simpa using hbT⟩
+    | cons l0 pre0 =>
+      have hne : pre ≠ [] := by rw [hpre]; simp
+      have hch := literal_chainC (a := s.cursor) (cs' := pp) pre s.cursor (Nat.le_refl _) hbl hwf hGst hhop
+        (Or.inr ⟨hpplt, rfl⟩) hc3 hne
+      obtain ⟨_, hlt, b, hb0, hnp⟩ := nameAt_start (nameAtC_forget hch)
+      have hbd := hbound hne
+      rw [← hpre]
+      exact ⟨s.cursor, s.cursor, .here hlt hb0 hnp, Or.inl ⟨rfl, rfl⟩, hch, by rw [encLen_append]; omega⟩
+  have hchunk : ChunkAt s3.octets s.cursor (s3.cursor - s.cursor) := by
+    refine ⟨pre, b1, hwf, ?_, Or.inr ⟨hisp, by rw [hcur]; omega⟩⟩
+    intro i hi
+    rw [List.length_append] at hi
+    simp only [List.length_cons, List.length_nil] at hi
+    have := hb i (by rw [hpb, List.length_append]; simp only [List.length_cons, List.length_nil]; omega)
+    rw [this, hpb]
+    by_cases hlt : i < (pre.flatMap WName.encLabel).length
+    · rw [List.getElem?_append_left hlt, List.getElem?_append_left hlt]
+    · have hi' : i = (pre.flatMap WName.encLabel).length := by omega
+      subst hi'
+      simp
+  refine ⟨?_, ⟨q, hq1, hq2, hq3⟩, hreads, hchunk⟩
   have hc12 := h.c12; have hav := h.cur_av
   refine ⟨by rw [hcur]; omega, by rw [e.available]; exact e.avail hav,
-    by rw [e.available, e.size]; exact h.av_size, ?_, ?_, ?_, ?_, ?_⟩
+    by rw [e.available, e.size]; exact h.av_size, ?_, ?_, ?_, ?_, ?_, ?_⟩
   · intro g hg
     rw [hgl] at hg
     simp only [List.mem_append, List.mem_reverse] at hg
@@ -506,6 +708,22 @@ theorem literal_ptr_state {s s3 : State} (h : WInv s) (e : Ext s s3) {pre tail :
   · rw [hq]; exact anchorOK_ext e h.qn
   · rw [ho]; exact anchorOK_ext e h.ow
   · rw [hr]; exact anchorOK_ext e h.rd
+  · intro g hg
+    rw [hgl] at hg
+    simp only [List.mem_append, List.mem_reverse] at hg
+    rcases hg with hg | hg
+    · obtain ⟨ls', hc, _⟩ := h.clabs pp (nameAt_start htail).1
+      have := nameAtC_unique hc htail
+      subst this
+      have hc3 : NameAtC (GL s3) s3.octets s3.cursor pp pp ls' :=
+        nameAtC_frame (lo := 0) hc (fun x hx => e.glab x hx) (fun _ _ => Nat.zero_le _)
+          (fun i _ hi => e.pre i hi) e.cur
+      obtain ⟨ls2, h1, h2⟩ := literal_allC (a := s.cursor) (cs' := pp) pre s.cursor (Nat.le_refl _) hbl hwf hGst hhop
+        (Or.inr ⟨hpplt, rfl⟩) hc3 g hg
+      have hne : pre ≠ [] := by intro hnil; rw [hnil] at hg; simp [labelStartsFrom] at hg
+      have := hbound hne
+      exact ⟨ls2, h1, by omega⟩
+    · exact cstored_ext e (h.clabs g hg)
 
 
 theorem tryPush_eq' (d : List UInt8) (s : State) (h1 : s.cursor ≤ s.available)
@@ -563,11 +781,12 @@ theorem writeCompressedUnhintedName_spec (n : WName) (s : State) (h : WInv s) (h
         case lg =>
           exact ptrLog_literal (k := 0) hl e hst hpos hmax (by simp [pushed]; rfl) s.gCtx s.mode (by simp [pushed])
         simp only [Out.ok.injEq] at hp
-        obtain ⟨hw, _⟩ := literal_ptr_state (pre := []) h e (fun _ hl => by cases hl) hst hmax'
+        obtain ⟨hw, _, hrd, hck⟩ := literal_ptr_state (pre := []) h e (fun _ hl => by cases hl) hst hmax'
           (by simpa [pushed] using bytesAt_writeAt s.octets s.cursor (ptrBytes m.priorPointer)
                 (by have : (ptrBytes m.priorPointer).length = 2 := rfl; omega))
-          (by simp [pushed, encLen]; rfl) (by simp [pushed, labelStartsFrom]) rfl rfl rfl
-        refine ⟨hw, ?_, rfl, rfl, rfl⟩
+          (by simp [pushed, encLen]; rfl) (by simp [pushed, labelStartsFrom]) rfl rfl rfl (fun hne => absurd rfl hne)
+        refine ⟨hw, ?_, rfl, rfl, rfl, ⟨ls, by simpa using hrd,
+          labelsMatch_eff (by have := hmatch; rw [hk0] at this; simpa using this)⟩, hck⟩
         intro q hq
         rw [← hp] at hq
         cases hq
@@ -602,7 +821,7 @@ theorem writeCompressedUnhintedName_spec (n : WName) (s : State) (h : WInv s) (h
             rw [hwt]; rfl
           have hwfpre : LabelsWF (List.take m.startColumn n.labels) :=
             fun l hl => wf_labels hn l (List.mem_of_mem_take hl)
-          obtain ⟨hw, q, _, hq2, hq3⟩ := literal_ptr_state (pre := List.take m.startColumn n.labels) h e
+          obtain ⟨hw, ⟨q, _, hq2, hq3⟩, hrd, hck⟩ := literal_ptr_state (pre := List.take m.startColumn n.labels) h e
             hwfpre hst hmax'
             (by
               simp only [pushed, o2, c2, ← hwt]
@@ -612,6 +831,14 @@ theorem writeCompressedUnhintedName_spec (n : WName) (s : State) (h : WInv s) (h
             (by simp only [pushed, c2, hlen1]; rfl) (by simp only [pushed, g2])
             (by simp only [pushed]; rw [← hs2]; rfl) (by simp only [pushed]; rw [← hs2]; rfl)
             (by simp only [pushed]; rw [← hs2]; rfl)
+            (fun _ => by
+              have h255 : n.wire.length ≤ 255 := hn.2
+              have hw := wire_length n
+              have hsplit : encLen n.labels = encLen (List.take m.startColumn n.labels) +
+                  encLen (List.drop m.startColumn n.labels) := by
+                rw [← encLen_append, List.take_append_drop]
+              have := labelsMatch_encLen hmatch
+              omega)
           have hne : List.take m.startColumn n.labels ≠ [] := by
             intro hnil
             have := congrArg List.length hnil
@@ -619,7 +846,10 @@ theorem writeCompressedUnhintedName_spec (n : WName) (s : State) (h : WInv s) (h
             omega
           rw [hq3 hne] at hq2
           refine ⟨hw, ?_, by simp only [pushed]; rw [← hs2]; rfl, by simp only [pushed]; rw [← hs2]; rfl,
-            by simp only [pushed]; rw [← hs2]; rfl⟩
+            by simp only [pushed]; rw [← hs2]; rfl, ⟨_, hrd, by
+              have := labelsMatch_append (mode := effMode s.mode)
+                (labelsMatch_refl _ (List.take m.startColumn n.labels)) (labelsMatch_eff hmatch)
+              rwa [List.take_append_drop] at this⟩, hck⟩
           intro q' hq'
           rw [← hp] at hq'
           cases hh : hintPointerNew s.cursor with
@@ -646,7 +876,8 @@ theorem writeUnhintedName_spec (n : WName) (s : State) (h : WInv s) (hn : n.WF) 
   · exact writeCompressedUnhintedName_spec n s h hn
   · exact writeUncompressedName_spec n s h hn
 
-theorem pushHinted_spec (q : Prior) (n : WName) (s : State) (h : WInv s) (hd : Den s q n) :
+theorem pushHinted_spec (q : Prior) (n : WName) (s : State) (h : WInv s) (hd : Den s q n)
+    (hm : s.mode ≠ .casePreserving) :
     NameSpec s n (pushHinted q s) := by
   have hav := h.cur_av; have hsz := h.av_size
   have e := frame_pushHinted q s
@@ -660,12 +891,12 @@ theorem pushHinted_spec (q : Prior) (n : WName) (s : State) (h : WInv s) (hd : D
       exact ptrLog_literal (k := 0) hl e hst hpos hmax (by simp [pushed]; rfl) s.gCtx s.mode (by simp [pushed])
     simp only [Out.ok.injEq] at hp
     have hd' := hd
-    obtain ⟨_, hmax, _, ls, hst, _⟩ := hd'
-    obtain ⟨hw, _⟩ := literal_ptr_state (pre := []) h e (fun _ hl => by cases hl) hst hmax
+    obtain ⟨_, hmax, _, ls, hst, hmt⟩ := hd'
+    obtain ⟨hw, _, hrd, hck⟩ := literal_ptr_state (pre := []) h e (fun _ hl => by cases hl) hst hmax
       (by simpa [pushed] using bytesAt_writeAt s.octets s.cursor (ptrBytes q.ptr)
             (by have : (ptrBytes q.ptr).length = 2 := rfl; omega))
-      (by simp [pushed, encLen]; rfl) (by simp [pushed, labelStartsFrom]) rfl rfl rfl
-    refine ⟨hw, ?_, rfl, rfl, rfl⟩
+      (by simp [pushed, encLen]; rfl) (by simp [pushed, labelStartsFrom]) rfl rfl rfl (fun hne => absurd rfl hne)
+    refine ⟨hw, ?_, rfl, rfl, rfl, ⟨ls, by simpa using hrd, by unfold effMode; rw [if_neg hm]; exact hmt⟩, hck⟩
     intro q' hq'
     rw [← hp] at hq'
     cases hq'
@@ -689,26 +920,27 @@ theorem writeHintedName_spec (hint : Hint) (n : WName) (s : State) (h : WInv s) 
   · exact writeUncompressedName_spec n s h hn
   · split
     · exact writeCompressedUnhintedName_spec n s h hn
-    · cases hint with
+    · rename_i hncp
+      cases hint with
       | qname =>
         simp only [M.bind_apply, M.gets_apply]
         cases hq : s.qname with
         | none => exact writeCompressedUnhintedName_spec n s h hn
-        | some q => exact pushHinted_spec q n s h (hh q hq)
+        | some q => exact pushHinted_spec q n s h (hh q hq) hncp
       | mostRecentOwner =>
         simp only [M.bind_apply, M.gets_apply]
         cases hq : s.mostRecentOwner with
         | none => exact writeCompressedUnhintedName_spec n s h hn
-        | some q => exact pushHinted_spec q n s h (hh q hq)
+        | some q => exact pushHinted_spec q n s h (hh q hq) hncp
       | mostRecentNameInRdata =>
         simp only [M.bind_apply, M.gets_apply]
         cases hq : s.mostRecentNameInRdata with
         | none => exact writeCompressedUnhintedName_spec n s h hn
-        | some q => exact pushHinted_spec q n s h (hh q hq)
+        | some q => exact pushHinted_spec q n s h (hh q hq) hncp
       | explicit p =>
         simp only [M.bind_apply, M.gets_apply]
         split
-        · rename_i hp; exact pushHinted_spec _ n s h (hh hp)
+        · rename_i hp; exact pushHinted_spec _ n s h (hh hp) hncp
         · exact writeCompressedUnhintedName_spec n s h hn
       | none => exact writeCompressedUnhintedName_spec n s h hn
 
